@@ -121,8 +121,8 @@ Section Mgr.
 
   (* ---- the oracle applied to the implementation's answers ----
      It follows the table through the history and states the property:
-     Get/All show the table; a Flush with something pending hands the full table
-     to the provider and afterwards the file holds exactly it; a restart with
+     Get/All show the table; a Flush hands the full table to the provider (if it calls
+     it at all) and with something pending the file afterwards holds exactly the table; a restart with
      nothing pending (i.e. after a flush) shows exactly the table the server had. *)
   Definition opt_eqb {A} (e : A -> A -> bool) (a b : option A) : bool :=
     match a, b with Some x, Some y => e x y | None, None => true | _, _ => false end.
@@ -134,9 +134,10 @@ Section Mgr.
     end.
   Definition tab_eqb := leqb (t_eqb M).
   Definition keys_eqb := leqb bytes_eqb.
-  Definition call_eqb (a b : fcall E) : bool :=
-    opt_eqb (fun x y => tab_eqb (fst (fst x)) (fst (fst y)) && keys_eqb (snd (fst x)) (snd (fst y)) &&
-                        keys_eqb (snd x) (snd y)) a b.
+  (* the pending lists matter to the property only through "is anything pending"; their content is
+     compared with the model by the check but not judged *)
+  Definition call_full_ok (c : fcall E) (t : list E) : bool :=
+    match c with Some x => tab_eqb (fst (fst x)) t | None => true end.
 
   Definition ok_step (sd : mstate E * disk) (o : mop X) (out : mout E) : bool :=
     let '(st, d) := sd in
@@ -146,8 +147,9 @@ Section Mgr.
     | MGet k, OGot got => opt_eqb (t_eqb M) got (t_look M (m_tab st) (t_ckey M k))
     | MAll, OAllIs got => tab_eqb got (m_tab st)
     | MFlush, OFlushed call after =>
-        call_eqb call (flush_call st) &&
-        (if pend_empty st then opt_eqb tab_eqb after d else opt_eqb tab_eqb after (Some (m_tab st)))
+        call_full_ok call (m_tab st) &&
+        (if pend_empty st && negb (is_some call) then opt_eqb tab_eqb after d
+         else opt_eqb tab_eqb after (Some (m_tab st)))
     | MRestart, ORestarted got =>
         if pend_empty st then tab_eqb got (m_tab st) else tab_eqb got (load d)
     | _, _ => false
